@@ -13,6 +13,7 @@ import (
 
 type vecJ struct {
 	W   []int  `json:"w"`   // weights in list order
+	T   []int  `json:"t"`   // weight type of each entry (1 static, 0 none)
 	Ord []int  `json:"ord"` // host of each entry (distinct)
 	Out []int  `json:"out"` // real result (0-based indexes)
 	P   string `json:"p"`
@@ -34,12 +35,12 @@ func weightsMain(args []string) error {
 		if err := json.Unmarshal(b, &v); err != nil {
 			return err
 		}
-		if len(v.W) != len(v.Ord) {
+		if len(v.W) != len(v.Ord) || len(v.W) != len(v.T) {
 			return fmt.Errorf("bad vector %s", b)
 		}
 		eps := make([]endpoint.Endpoint, len(v.W))
 		for i := range v.W {
-			eps[i] = mkEp(v.Ord[i], v.W[i])
+			eps[i] = mkEp(v.Ord[i], v.W[i], v.T[i])
 		}
 		var res []int
 		if c := guard(func() { res = selector.BuildStaticWeightList(eps) }); c != nil {
